@@ -7,8 +7,8 @@
   * targets: character motions, word motions (anchors Start / AfterEnd, backward), line start/end,
     character searches (`C04_char_search_*`), vertical motion (`C04_moveToLine*_dest`, `C04_moveToLine*_column`, `C04_vertical_column`);
   * spans: `C04_kill_<movement>_is_span` / `C04_copy_<movement>_is_span` for every movement except
-    `ViFirstPrint` (known finding, counter-examples below), assembled in `C04_kill_is_span_partial` /
-    `C04_copy_is_span_partial`. Two movements need a property of the segmenter that every UAX #29
+    movement — `ViFirstPrint` included since the repair of D46 — assembled in `C04_kill_is_span` /
+    `C04_copy_is_span`. Two movements need a property of the segmenter that every UAX #29
     segmenter has but an arbitrary lawful `Segmenter` need not have: `S.Stable` (re-segmenting a run of
     whole clusters gives the same clusters; used by `T`/`t` searches, which the code answers by
     re-segmenting a slice) and `S.NlAlone` (the line break is a cluster of its own; used by the
@@ -23,6 +23,7 @@ import Rl.Lemmas.KillSpan
 import Rl.Lemmas.LineSpan
 import Rl.Lemmas.WordSpan
 import Rl.Lemmas.Vertical
+import Rl.Lemmas.FirstPrint
 set_option linter.unusedVariables false
 open Rl Rl.Spec
 
@@ -314,21 +315,35 @@ theorem C04_kill_backwardWord_is_span (S : Segmenter) (U : UData) (lb lb' : LB) 
     checkKill S U lb (.backwardWord n d) lb'.buf lb'.pos ns = none :=
   kill_backwardWord_is_span S U lb lb' n d r ns h hrun
 
-/-- FULL statement "a kill with a given movement removes exactly the span the movement names" for
-    every movement and every lawful segmenter, phrased with the executable oracle of `./check C04`.
-    Not a theorem on the current tree: `kill(ViFirstPrint)` is a no-op (known finding
-    F-C04-vi-first-print, `C04_kill_viFirstPrint_counterexample`). -/
+/-- vi `^` as a motion (D46): `move_to_first_print` lands on the declarative target — the first cluster of the
+    current line that holds no white space, the line end when the line is blank — leaves the text alone and
+    answers `false` exactly when the cursor did not move -/
+theorem C04_moveToFirstPrint_target (S : Segmenter) (U : UData) (lb lb' : LB) (r : Bool) (ns : List Notif)
+    (h : WF lb) (hrun : LB.moveToFirstPrint S U lb = .ok (r, lb', ns)) :
+    firstPrintTarget S U lb.buf lb.pos = some lb'.pos ∧ lb'.buf = lb.buf ∧ (r = false ↔ lb'.pos = lb.pos) :=
+  moveToFirstPrint_target S U lb lb' r ns h hrun
+
+/-- `d^` / `c^` (after the repair of D46): the text between the cursor and the first non-blank of the line -/
+theorem C04_kill_viFirstPrint_is_span (S : Segmenter) (U : UData) (lb lb' : LB) (r : Bool)
+    (ns : List Notif) (h : WF lb) (hrun : LB.kill S U .viFirstPrint lb = .ok (r, lb', ns)) :
+    checkKill S U lb .viFirstPrint lb'.buf lb'.pos ns = none :=
+  kill_viFirstPrint_is_span S U lb lb' r ns h hrun
+
+/-- Statement "a kill with a given movement removes exactly the span the movement names" for EVERY
+    movement, phrased with the executable oracle of `./check C04`, for every segmenter that is stable (used
+    by `dT`) and keeps the line break alone (used by the whole-line kill of an empty line) — every UAX #29
+    segmenter is both (`C04_uaxSeg_stable`, `C04_uaxSeg_nlAlone`).  (Before the repair of D46 it was refuted by
+    `kill(ViFirstPrint)`, a no-op.) -/
 def C04_kill_is_span_statement : Prop :=
-  ∀ (S : Segmenter) (U : UData) (lb lb' : LB) (mvt : Movement) (r : Bool) (ns : List Notif), WF lb →
+  ∀ (S : Segmenter) (U : UData), S.Stable → S.NlAlone → ∀ (lb lb' : LB) (mvt : Movement) (r : Bool)
+    (ns : List Notif), WF lb →
     LB.kill S U mvt lb = .ok (r, lb', ns) → checkKill S U lb mvt lb'.buf lb'.pos ns = none
 
-/-- The kill statement for EVERY movement except `ViFirstPrint` (every count, word definition, anchor,
-    char search), for every segmenter that is stable and keeps the line break alone. -/
-theorem C04_kill_is_span_partial (S : Segmenter) (U : UData) (hS : S.Stable) (hnl : S.NlAlone)
-    (lb lb' : LB) (mvt : Movement) (r : Bool) (ns : List Notif) (h : WF lb) (hm : mvt ≠ .viFirstPrint)
-    (hrun : LB.kill S U mvt lb = .ok (r, lb', ns)) : checkKill S U lb mvt lb'.buf lb'.pos ns = none := by
+/-- **The kill statement for EVERY movement** (every count, word definition, anchor, char search). -/
+theorem C04_kill_is_span : C04_kill_is_span_statement := by
+  intro S U hS hnl lb lb' mvt r ns h hrun
   cases mvt with
-  | viFirstPrint => exact absurd rfl hm
+  | viFirstPrint => exact kill_viFirstPrint_is_span S U lb lb' r ns h hrun
   | wholeLine => exact kill_wholeLine_is_span S U hnl lb lb' r ns h hrun
   | beginningOfLine => exact kill_beginningOfLine_is_span S U lb lb' r ns h hrun
   | endOfLine => exact kill_endOfLine_is_span S U lb lb' r ns h hrun
@@ -423,18 +438,23 @@ theorem C04_copy_backwardWord_is_span (S : Segmenter) (U : UData) (lb : LB) (n :
     checkCopy S U lb (.backwardWord n d) (.optText r) = none :=
   copy_backwardWord_is_span S U lb n d r h hrun
 
-/-- FULL statement for copies; not a theorem on the current tree: `copy(ViFirstPrint)` measures from the
-    first non-blank of the BUFFER, not of the current line (`C04_copy_viFirstPrint_counterexample`). -/
+/-- `y^` (after the repair of D46) -/
+theorem C04_copy_viFirstPrint_is_span (S : Segmenter) (U : UData) (lb : LB) (r : Option Text)
+    (h : WF lb) (hrun : LB.copy S U lb .viFirstPrint = .ok r) :
+    checkCopy S U lb .viFirstPrint (.optText r) = none :=
+  copy_viFirstPrint_is_span S U lb r h hrun
+
+/-- Statement for copies, EVERY movement, for every stable segmenter (used by `yT`).  (Before the repair of D46
+    it was refuted by `copy(ViFirstPrint)`, measured from the start of the buffer.) -/
 def C04_copy_is_span_statement : Prop :=
-  ∀ (S : Segmenter) (U : UData) (lb : LB) (mvt : Movement) (r : Option Text), WF lb →
+  ∀ (S : Segmenter) (U : UData), S.Stable → ∀ (lb : LB) (mvt : Movement) (r : Option Text), WF lb →
     LB.copy S U lb mvt = .ok r → checkCopy S U lb mvt (.optText r) = none
 
-/-- The copy statement for EVERY movement except `ViFirstPrint`, for every stable segmenter. -/
-theorem C04_copy_is_span_partial (S : Segmenter) (U : UData) (hS : S.Stable) (lb : LB) (mvt : Movement)
-    (r : Option Text) (h : WF lb) (hm : mvt ≠ .viFirstPrint) (hrun : LB.copy S U lb mvt = .ok r) :
-    checkCopy S U lb mvt (.optText r) = none := by
+/-- **The copy statement for EVERY movement.** -/
+theorem C04_copy_is_span : C04_copy_is_span_statement := by
+  intro S U hS lb mvt r h hrun
   cases mvt with
-  | viFirstPrint => exact absurd rfl hm
+  | viFirstPrint => exact copy_viFirstPrint_is_span S U lb r h hrun
   | wholeLine => exact copy_wholeLine_is_span S U lb r h hrun
   | beginningOfLine => exact copy_beginningOfLine_is_span S U lb r h hrun
   | endOfLine => exact copy_endOfLine_is_span S U lb r h hrun
@@ -454,28 +474,13 @@ theorem C04_copy_is_span_partial (S : Segmenter) (U : UData) (hS : S.Stable) (lb
 /-- a small concrete Unicode-data record for counter-examples -/
 def C04_exU : UData := ⟨fun c => c.isAlphanum, fun c => c == ' ', fun c => [c], fun c => [c], fun t => t.length, fun _ => 1⟩
 
-/-- known finding F-C04-vi-first-print: `kill(ViFirstPrint)` (`d^`) does nothing. Witness "ab", cursor 1:
-    the span `[0,1)` is named, the text is unchanged. -/
-theorem C04_kill_viFirstPrint_counterexample : ¬ C04_kill_is_span_statement := by
-  intro h
-  have := h charSeg C04_exU ⟨['a', 'b'], 1, 16, false⟩ ⟨['a', 'b'], 1, 16, false⟩ .viFirstPrint false
-    [.startKill, .stopKill] ⟨['a'], ['b'], rfl, by decide⟩ (by rfl)
-  have e : checkKill charSeg C04_exU ⟨['a', 'b'], 1, 16, false⟩ .viFirstPrint ['a', 'b'] 1 [.startKill, .stopKill] =
-      some "kill-span" := by rfl
-  rw [e] at this
-  simp at this
-
-/-- known finding F-C04-vi-first-print (copy): `copy(ViFirstPrint)` (`y^`) measures from the first
-    non-blank of the buffer instead of the current line. Witness "a\nbc", cursor 4: returns the whole
-    text instead of "bc". -/
-theorem C04_copy_viFirstPrint_counterexample : ¬ C04_copy_is_span_statement := by
-  intro h
-  have := h charSeg C04_exU ⟨['a', '\n', 'b', 'c'], 4, 16, false⟩ .viFirstPrint (some ['a', '\n', 'b', 'c'])
-    ⟨['a', '\n', 'b', 'c'], [], rfl, by decide⟩ (by rfl)
-  have e : checkCopy charSeg C04_exU ⟨['a', '\n', 'b', 'c'], 4, 16, false⟩ .viFirstPrint
-      (.optText (some ['a', '\n', 'b', 'c'])) = some "copy-span" := by rfl
-  rw [e] at this
-  simp at this
+/-- regression witnesses of D46: "ab", cursor 1, `d^` removes "a"; "a\nbc", cursor 4, `y^` returns "bc";
+    "\n0. ", cursor 3, `^` goes to 1 -/
+example : LB.kill charSeg C04_exU .viFirstPrint ⟨['a', 'b'], 1, 16, false⟩ =
+    .ok (true, ⟨['b'], 0, 16, false⟩, [.startKill, .del 0 ['a'] .backward, .stopKill]) := by rfl
+example : LB.copy charSeg C04_exU ⟨['a', '\n', 'b', 'c'], 4, 16, false⟩ .viFirstPrint = .ok (some ['b', 'c']) := by rfl
+example : LB.moveToFirstPrint charSeg ⟨fun c => c.isAlphanum, fun c => c == ' ' || c == '\n', fun c => [c], fun c => [c], fun t => t.length, fun _ => 1⟩
+    ⟨['\n', '0', '.', ' '], 3, 16, false⟩ = .ok (true, ⟨['\n', '0', '.', ' '], 1, 16, false⟩, []) := by rfl
 
 /-- FULL statement for `At::BeforeEnd` (vi `e` / `E`), not a theorem on the current tree -/
 def C04_word_target_beforeEnd_statement : Prop :=
